@@ -31,6 +31,18 @@ func genSigFunctions(r *rand.Rand) map[string]schema.FunctionSignature {
 		}
 		fs[fmt.Sprintf("f%d", i)] = f
 	}
+	if r.Intn(2) == 0 {
+		// signatures generated as prefixes of one parameter list (slices sharing a backing array with
+		// spare capacity), each with a variadic parameter
+		pool := make([]function.Parameter, 0, 8)
+		for j := 0; j < 5; j++ {
+			pool = append(pool, function.Parameter{Name: fmt.Sprintf("q%d", j), Type: pick(r, types)})
+		}
+		for n := 1; n <= 5; n++ {
+			fs[fmt.Sprintf("g%d", n)] = schema.FunctionSignature{Params: pool[:n], ReturnType: cty.String,
+				VarParam: &function.Parameter{Name: "more", Type: cty.String}}
+		}
+	}
 	fs["noargs"] = schema.FunctionSignature{ReturnType: cty.String}
 	fs["ns::fn::x"] = schema.FunctionSignature{ReturnType: cty.String, Params: []function.Parameter{{Name: "a", Type: cty.String}}}
 	return fs
@@ -40,7 +52,7 @@ func genCallExpr(r *rand.Rand, d int) string {
 	if d <= 0 || r.Intn(4) == 0 {
 		return pick(r, []string{"1", `"s"`, "var.a", "true", "[1, 2]", `{ k = "v" }`, `"é"`, "local.x[0]"})
 	}
-	name := pick(r, []string{"f0", "f1", "f2", "f3", "f4", "f5", "noargs", "unknown", "ns::fn::x"})
+	name := pick(r, []string{"f0", "f1", "f2", "f3", "f4", "f5", "noargs", "unknown", "ns::fn::x", "g1", "g2", "g3", "g4", "g5"})
 	n := r.Intn(5)
 	var args []string
 	for i := 0; i < n; i++ {
